@@ -14,6 +14,7 @@ Decided (DESIGN.md C49, inventory E.4):
      "absent" means "not permitted", not "unset". Allow-listed: Account::try_from_entry_reduced (credential status display;
      gates nothing — its only caller is get_credentialstatus).  [F10 was RadiusAccount::try_from_entry_reduced]
  K1  who-may-construct: the release values are only built inside the inventoried entry points.
+ K5-window-fields  valid_from / expire / radius_secret of Account (4 parsers), RadiusAccount, ServiceAccount are read from their own attributes.
 Not decided: that no *other* front end exists outside kanidmd_lib; clock source; OAuth2 paths are covered through
 check_oauth2_account_uuid_valid (C39 decides that they call it).
 """
